@@ -5,8 +5,8 @@ real validate() (and of `schema == value`) with the reference model.
 """
 from .. import model as M
 from ..codec import unsrc
-from ..common import case_tv, innermost_disagreement, shard_items, tname, verdict
-from ..runner import Acc, parallel
+from ..common import case_tv, innermost_disagreement, shard_items, short_lived, tname, verdict
+from ..runner import Acc, parallel, parallel_fresh
 from ..terms import show, try_build
 from ..universe import universe
 from ..values import value_universe
@@ -73,8 +73,25 @@ def worker(shard, nshards, tier, seed):
     return acc
 
 
+def reuse_worker(shard, nshards, tier, seed):
+    """Short-lived schemas (see common.short_lived): same oracle, fewer values per schema."""
+    acc = Acc()
+
+    def examine(t, s):
+        vals, _ = value_universe(t, 40)
+        for v in vals:
+            acc.count("short_lived_pairs")
+            sig = check_pair(t, s, v)
+            if sig:
+                acc.violation(sig, case_tv(t, v))
+
+    short_lived(universe(tier), shard, nshards, acc, examine)
+    return acc
+
+
 def run(tier, seed):
     acc = parallel(worker, tier, seed, warm_pass=True)
+    acc.merge(parallel_fresh(reuse_worker, tier, seed, nshards=16))
     cov = {
         "states": acc.n["schemas"],
         "transitions": acc.n["pairs"],
@@ -86,6 +103,9 @@ def run(tier, seed):
                 "the model accepts some and rejects some of its values",
         "exhaustive": not acc.caps,
         "bounds": {"tier": tier, "value_limit_per_schema": VLIMIT[tier]},
+        "short_lived_pass": {"builds": acc.n["short_lived_builds"], "pairs": acc.n["short_lived_pairs"],
+                             "address_reused_by_a_different_schema":
+                                 acc.n["address_reused_by_a_different_schema"]},
     }
     return acc, cov, ["M.accepts is the stated meaning of C02; re.search and math.isclose are "
                       "shared with the implementation by design",
